@@ -89,9 +89,9 @@ func mustTable(text string) Table {
 
 // ---------- C06 scenario 1: redirect isolation ----------
 
-func c06RedirectBody(nThreads int) func(x *vsched.X) {
+func c06RedirectBody(nThreads int, tmpl string) func(x *vsched.X) {
 	paths := []string{"/a", "/b?q=1", "/c/d"}
-	table := "route add svc / https://t.example/$path opts \"redirect=301\"\n"
+	table := "route add svc / " + tmpl + " opts \"redirect=301\"\n"
 	// expectation computed alone, sequentially
 	want := make([]string, nThreads)
 	for i := 0; i < nThreads; i++ {
@@ -302,8 +302,11 @@ func TestVerifC06Sched(t *testing.T) {
 	eq3 := eq2 + "route add s /p http://c:80/\n"
 	w2 := "route add s /p http://a:80/ weight 0.25\nroute add s /p http://b:80/ weight 0.75\n"
 	scs := []schedScenario{
-		{"redirect-2req", 2, 3, c06RedirectBody(2)},
-		{"redirect-3req", 1, 2, c06RedirectBody(3)},
+		{"redirect-2req", 2, 3, c06RedirectBody(2, "https://t.example/$path")},
+		{"redirect-3req", 1, 2, c06RedirectBody(3, "https://t.example/$path")},
+		{"redirect-2req-host-suffix-template", 2, 3, c06RedirectBody(2, "https://t.example$path")},
+		{"redirect-2req-host-template", 1, 2, c06RedirectBody(2, "https://$host/x/$path")},
+		{"redirect-2req-fixed-target", 1, 2, c06RedirectBody(2, "https://t.example/fixed")},
 		{"rr-2x2-equal", 2, 3, c06RRBody(2, 2, eq2)},
 		{"rr-3x2-equal3", 1, 2, c06RRBody(3, 2, eq3)},
 		{"rr-2x2-weighted", 2, 3, c06RRBody(2, 2, w2)},
@@ -314,6 +317,24 @@ func TestVerifC06Sched(t *testing.T) {
 		{"swap-cross-effects", 1, 2, c02SwapBody(2, 1, false)},
 	}
 	schedRun(L, scs, 240, 2400)
+	L.End(true)
+}
+
+// C04 does not quantify over schedules, but its round-robin clause is only
+// worth something if it also holds when lookups overlap: the three
+// round-robin scenarios of C06 (ring lengths 2, 3 and 10000) run here too.
+func TestVerifC04Sched(t *testing.T) {
+	L := ev.Begin("C04", "c04-sched", "model_checking",
+		"controlled scheduler: 2-3 threads x 2 round-robin lookups on equal (ring of 2 and 3 slots, so every execution wraps around the ring) and weighted routes; every interleaving up to the preemption bound; oracle: the picks are exactly the ring prefix of that length")
+	eq2 := "route add s /p http://a:80/\nroute add s /p http://b:80/\n"
+	eq3 := eq2 + "route add s /p http://c:80/\n"
+	w2 := "route add s /p http://a:80/ weight 0.25\nroute add s /p http://b:80/ weight 0.75\n"
+	schedRun(L, []schedScenario{
+		{"rr-2x2-equal", 2, 3, c06RRBody(2, 2, eq2)},
+		{"rr-3x2-equal3", 1, 2, c06RRBody(3, 2, eq3)},
+		{"rr-2x3-equal", 1, 2, c06RRBody(2, 3, eq2)},
+		{"rr-2x2-weighted", 2, 3, c06RRBody(2, 2, w2)},
+	}, 120, 1500)
 	L.End(true)
 }
 
